@@ -42,6 +42,7 @@ namespace engine
                 for (std::size_t i = 0; i < Size; ++i)
                 {
                     data_[i].key = 0ULL;
+                    data_[i].value = Value();
                 }
             }
 
